@@ -84,7 +84,7 @@ pub fn check(sc: &Scenario, env: &mut Env) -> Result<Outcome, HarnessError> {
         }
         // `not` yields exactly those entries of the underlying iterator whose root-relative path
         // does not match the pattern (order preserved).
-        let rels: Vec<String> = u.ys.iter().map(|y| denorm(&y.rel, &env.root_text)).collect();
+        let rels: Vec<String> = u.ys.iter().map(|y| lossy(&denorm(&y.rel, &env.root_text))).collect();
         let matches = reference_matches(pf, &rels).map_err(HarnessError)?;
         let wp = |y: &Y| y.wp.clone().unwrap_or_else(|| format!("<outside:{}>", y.path));
         let expected: Vec<String> = u
